@@ -163,3 +163,25 @@ Theorem C13_v0_reissuance_outputs_pay_derived_ids : forall p a p',
                   (mk_iss (rva_blinder a) entropy (spec_amount (rva_asset a)) [x00])].
 Proof. exact v0_reissuance_outputs_pay_derived_ids. Qed.
 Print Assumptions C13_v0_reissuance_outputs_pay_derived_ids.
+
+(* histories: over any sequence of calls on one updater, an issuance or reissuance once attached to an
+   input is never replaced (so the outputs earlier calls added keep the input that issues them) *)
+Theorem C13_v0_history_keeps_issuances : forall ops p, v0_inv p ->
+  v0_keeps p (fold_left v0_step ops p) /\ v0_inv (fold_left v0_step ops p).
+Proof. exact v0_history_keeps_issuances. Qed.
+Print Assumptions C13_v0_history_keeps_issuances.
+
+Theorem C13_v0_add_issuance_needs_a_free_input : forall p a,
+  (forall x, In x (t_ins (v0_tx p)) -> in_iss x <> None) -> v0_add_issuance p a = (false, p).
+Proof. exact v0_add_issuance_needs_a_free_input. Qed.
+Print Assumptions C13_v0_add_issuance_needs_a_free_input.
+
+Theorem C13_v2_history_keeps_issuances : forall ops p, v2_keeps p (fold_left v2_step ops p).
+Proof. exact v2_history_keeps_issuances. Qed.
+Print Assumptions C13_v2_history_keeps_issuances.
+
+Theorem C13_v2_refused_calls_change_nothing : forall p idx,
+  (forall a p', v2_add_in_issuance p idx a = (false, p') -> p' = p) /\
+  (forall a p', v2_add_in_reissuance p idx a = (false, p') -> p' = p).
+Proof. exact v2_refused_calls_change_nothing. Qed.
+Print Assumptions C13_v2_refused_calls_change_nothing.
